@@ -195,6 +195,48 @@ func GenC17(r *RNG) *SrvPlan {
 	return p
 }
 
+// GenC17IdleBurst: a burst of frames that go through the reader queue (longer than its 128 slots) while the idle timer
+// is about to fire: the stream loop may end with the queue full and the read loop in the middle of handing a frame
+// over. Then the peer leaves.
+func GenC17IdleBurst(r *RNG) *SrvPlan {
+	p := GenC01(r)
+	p.Family = "c17-idle-burst"
+	p.GateMode = Pick(r, "open", "hold", "sched")
+	T := Pick(r, time.Second, 5*time.Second)
+	p.Srv.IdleTimeout = T
+	p.Srv.PingInterval = -1
+	burst := Lane{Name: "burst", After: Pick(r, -1, -1, 0)}
+	n := 140 + r.Intn(260)
+	kind := Pick(r, "wupd", "settings", "wupd-stream", "mixed")
+	for i := 0; i < n; i++ {
+		k := kind
+		if kind == "mixed" {
+			k = Pick(r, "wupd", "settings", "wupd-stream")
+		}
+		switch k {
+		case "wupd":
+			burst.Ops = append(burst.Ops, Op{Kind: "wupd", OnConn: true, Incr: 1, Pad: -1, TableSize: -1})
+		case "settings":
+			burst.Ops = append(burst.Ops, Op{Kind: "settings", Pad: -1, TableSize: -1})
+		case "wupd-stream":
+			burst.Ops = append(burst.Ops, Op{Kind: "wupd", LaneRef: 1, Incr: 1, Pad: -1, TableSize: -1})
+		}
+	}
+	p.Lanes = append(p.Lanes, burst)
+	if r.Intn(3) == 0 {
+		// the peer does not read either: the stream loop falls behind on its own
+		p.Peer.LinkCap = 2048
+		p.Faults = append(p.Faults, Fault{Kind: "stall-s2c", AfterOps: -1})
+	}
+	p.Strategy.Stay = Pick(r, 0.8, 0.95, 0.98)
+	if r.Intn(2) == 0 {
+		p.Strategy.Starve = "(serverConn.handleStreams)" // the stream loop only gets to run when everybody else is waiting
+	}
+	p.Strategy.TimeRace = Pick(r, 0.01, 0.05, 0.2)
+	p.Strategy.TimeSteps = []time.Duration{T / 2, T, T + time.Millisecond, time.Millisecond}
+	return p
+}
+
 // mutatePlan applies 1-3 structure-aware mutations: duplicate / delete / reorder a frame, flip a flag,
 // retarget a frame to another stream id, insert a raw frame of arbitrary type.
 func mutatePlan(r *RNG, p *SrvPlan) {
